@@ -134,6 +134,8 @@ CallLabels(tag, DD, n, res, pre, dl, fx, maxdepth, taint) ==
         \* a DeepReferenceError is history dependent by design: it is legitimate
         \* exactly when the chain of executing formulas reached the limit
         deepOK == maxdepth > 0 /\ MaxDepth(fx) >= maxdepth + 1
+        \* ... also when a handler inside the evaluation caught that DeepReferenceError
+        deepCaught == \E j \in UnwindIdx(fx) : fx[j][3] = "DeepReferenceError"
         \* elements the execution log names that do not exist under DD (a changed
         \* tree may execute members the definitions no longer give the space)
         ghosts == {m \in Enters(fx) : ~NodeExists(DD, m)}
@@ -142,14 +144,14 @@ CallLabels(tag, DD, n, res, pre, dl, fx, maxdepth, taint) ==
       Lbl(ghosts = {} \/ ~PrintT(<<"INFO", tag, "executed elements that do not exist", ghosts>>),
           "C01.Transparent")
       \cup
-      Lbl(IF res = ErrDeep THEN deepOK
+      Lbl(IF res = ErrDeep \/ deepCaught THEN deepOK
           ELSE (res = exp \/ n \in taint
                 \/ ~PrintT(<<"INFO", tag, "call", n, "returned", res, "expected", exp>>)),
           "C01.Transparent")
-      \cup Lbl(res = ErrDeep \/ res = exp \/ n \notin taint, "KF:C01.caught-failure")
+      \cup Lbl(res = ErrDeep \/ deepCaught \/ res = exp \/ n \notin taint, "KF:C01.caught-failure")
       \* get_error() is the original exception: when the evaluation fails (by the oracle
       \* or in fact), the error reported is the one the oracle's evaluation ends with
-      \cup Lbl((IsErr(exp) \/ IsErr(res)) => (res = exp \/ res = ErrDeep \/ n \in taint
+      \cup Lbl((IsErr(exp) \/ IsErr(res)) => (res = exp \/ res = ErrDeep \/ deepCaught \/ n \in taint
                     \/ ~PrintT(<<"INFO", tag, "error of", n, "reported", res, "expected", exp>>)),
                "C17.ErrorIdentity")
       \cup Lbl(\A m \in Ent : IsCachedNode(DD, m) => m \notin DOMAIN pre, "C01.ComputedOnce")
